@@ -18,7 +18,15 @@ var vEnumCorpus = []string{
 }
 
 func vEnumText() []byte {
-	fam := zzverif.IntRange("family", 0, 1)
+	fam := zzverif.IntRange("family", 0, 2)
+	if fam == 2 {
+		// single-byte mutation: a corpus text with ONE byte, at any position,
+		// replaced by an arbitrary byte
+		doc := []byte(vEnumCorpus[zzverif.IntRange("doc", 0, len(vEnumCorpus)-1)])
+		zzverif.Assume(len(doc) > 0)
+		doc[zzverif.IntRange("at", 0, len(doc)-1)] = zzverif.Byte("byte")
+		return doc
+	}
 	if fam == 0 {
 		n := zzverif.IntRange("len", 0, zzverif.Bound("N", 4, 5))
 		return zzverif.Bytes("text", n)
@@ -68,4 +76,38 @@ func VerifC02_EnumText() {
 func VerifC16_EnumText() {
 	zzverif.Expect("accepted", "rejected")
 	vEnumEntryPoints(vEnumText(), true)
+}
+
+// vBadString: a JSON string literal of up to max bytes drawn from an ASCII
+// letter, an invalid byte, a two-byte lead and a continuation byte - every
+// mixture of well-formed and malformed UTF-8 (each malformed byte decodes to
+// the three-byte U+FFFD, so the decoded string can be longer than the literal).
+func vBadString(tag string, max int) []byte {
+	n := zzverif.IntRange(tag+"len", 0, max)
+	lit := []byte{'"'}
+	for i := 0; i < n; i++ {
+		lit = append(lit, zzverif.OneOf(tag+"b", "a\xff\xc3\xa9"))
+	}
+	return append(lit, '"')
+}
+
+// VerifC02_EnumStrings: enum rules whose string values mix well-formed and
+// malformed UTF-8, alone and next to a second value: every operation returns.
+func VerifC02_EnumStrings() {
+	zzverif.Expect("accepted")
+	zzverif.BoundIsViolation()
+	text := vJoinE([]byte("["), vBadString("s.", zzverif.Bound("badBytes", 6, 8)))
+	if zzverif.Bool("second") {
+		text = vJoinE(text, []byte(`, "a"`))
+	}
+	text = append(text, ']')
+	vEnumEntryPoints(text, false)
+}
+
+func vJoinE(parts ...[]byte) []byte {
+	var out []byte
+	for _, p := range parts {
+		out = append(out, p...)
+	}
+	return out
 }
